@@ -1509,5 +1509,35 @@ mod verif_inflate_core {
         assert!(serde_rec::IN_ORDER.load(Relaxed) == serde_rec::N_FIELDS, "OBL:serde.fields_serialized_under_their_own_names_in_declaration_order [C19]");
     }
 
+    // ------------------------------------------------------------------
+    // K-inittree-instance : the REAL init_tree on the concrete complete code with lengths 1,2,...,11,12,12 builds
+    // exactly the table instance K-slowdecode decodes with (fast table for codes <= 10 bits, overflow tree for the
+    // 11/12-bit ones). Together: init_tree + decode_huffman_code implement canonical Huffman decoding for this code,
+    // every bit stream. Everything concrete here (symbolic lengths: no result in 20 min in five formulations); the
+    // comparison is made at a symbolic index.
+    // ------------------------------------------------------------------
+    #[kani::proof]
+    #[kani::unwind(1030)]
+    fn k_init_tree_builds_the_long_code_table() {
+        let mut r = DecompressorOxide::default();
+        r.block_type = LITLEN_TABLE as u8;
+        r.table_sizes[LITLEN_TABLE] = 13;
+        let lens: [u8; 13] = [1, 2, 3, 4, 5, 6, 7, 8, 9, 10, 11, 12, 12];
+        let mut i = 0;
+        while i < 13 { r.code_size_literal[i] = lens[i]; i += 1; }
+        // stale content from a previous block must not survive
+        r.tables[LITLEN_TABLE].tree[5] = 77;
+        r.tables[LITLEN_TABLE].look_up[1023] = 5;
+        let mut l = LocalVars { bit_buf: 0, num_bits: 0, dist: 0, counter: 99, num_extra: 0 };
+        let a = init_tree(&mut r, &mut l);
+        assert!(matches!(a, Some(Action::Jump(DecodeLitlen))) && l.counter == 0, "OBL:inittree.complete_code_accepted_and_decoding_starts [C03]");
+        let k: usize = kani::any();
+        kani::assume(k < 1024);
+        assert!(r.tables[LITLEN_TABLE].look_up[k] == LONG_LOOKUP[k], "OBL:inittree.fast_table_is_the_canonical_code_bit_reversed_replicated [C03]");
+        let t: usize = kani::any();
+        kani::assume(t < MAX_HUFF_TREE_SIZE);
+        assert!(r.tables[LITLEN_TABLE].tree[t] == LONG_TREE[t], "OBL:inittree.overflow_tree_holds_the_codes_longer_than_10_bits_and_nothing_stale [C03 C18]");
+    }
+
     //@PLAYBACK@
 }
